@@ -142,6 +142,28 @@ def bitmap_templates():
     return t
 
 
+def open_templates():
+    """Templates that END inside an operator construct (or leave bitmap / back-reference state behind):
+    whatever a subset leaves in the registers must not reach the next subset (C06)."""
+    t = []
+    t.append([12001, 201130, 12001])                      # 201 still in force at the end
+    t.append([12001, 11003, 202129, 12001])               # 202
+    t.append([11003, 207001, 11003])                      # 207
+    t.append([1015, 208002, 1015])                        # 208
+    t.append([12001, 203012, 12001])                      # ends while defining reference values
+    t.append([12001, 203012, 12001, 203255, 12001])       # new reference value left defined
+    t.append([12001, 204006, 31021, 12001])               # 204
+    t.append([12001, 1001, 221002, 12001])                # 221 with one descriptor still to go
+    t.append([12001, 206010])                             # 206 pending
+    t.append([12001, 2001, 222000, 101002, 31031])        # bitmap definition still counting
+    t.append([12001, 2001, 222000, 101002, 31031, 101000, 31001, 33007])   # QA processing, back references left
+    t.append([101000, 31001, 12001, 223000, 101000, 31001, 31031, 101000, 31001, 223255])  # window depends on the subset
+    t.append([12001, 11003, 224000, 236000, 101002, 31031, 8023, 101000, 31001, 224255])   # bitmap kept for reuse
+    t.append([101000, 31001, 12001, 222000, 101000, 31001, 31031, 101000, 31001, 33007])
+    t.append([12001, 11003, 223000, 101002, 31031, 101000, 31001, 223255, 235000, 7001])
+    return t
+
+
 def sample(items, k, rnd):
     if k >= len(items):
         return list(items)
@@ -155,4 +177,4 @@ def catalogue(tier, seed=0):
         # everything small enough is always run; the seed rotates which of the heavier ones are included
         s = s[:8] + sample(s[8:], 5, rnd)
         b = b[:6] + sample(b[6:], 4, rnd)
-    return {'plain': p, 'struct': s, 'bitmap': b}
+    return {'plain': p, 'struct': s, 'bitmap': b, 'open': open_templates()}
